@@ -25,6 +25,7 @@ type Ctx struct {
 	f     *os.File
 	Sum   Summary
 	dist  map[string]bool
+	fails map[string]int
 	Extra map[string]string
 }
 
@@ -93,7 +94,13 @@ func (c *Ctx) Count(bucket string) { c.Sum.Histogram[bucket]++ }
 
 // Fail records an implementation-level oracle failure.
 func (c *Ctx) Fail(what, kase string) {
-	if len(c.Sum.OracleFailures) < 50 {
+	// keep at most 5 cases per distinct failure description (so a frequent known finding can never
+	// crowd a different violation out of the report) and 400 in total
+	if c.fails == nil {
+		c.fails = map[string]int{}
+	}
+	c.fails[what]++
+	if c.fails[what] <= 5 && len(c.Sum.OracleFailures) < 400 {
 		if len(kase) > 4000 {
 			kase = kase[:4000] + "..."
 		}
